@@ -514,6 +514,46 @@ func ruleBrkAdjust(w *World, r *Report) {
 			}
 			if controlDependsOn(fn, in, onState) {
 				r.ok("BRK-ADJUST", key, w.PosOf(in), "the window is re-allocated only when its shape changes")
+				// carry clause: what the old window counted goes into the new one
+				ms := st.Val.(*ssa.MakeSlice)
+				carried := false
+				allInstrs(fn, func(x ssa.Instruction) {
+					s2, ok := x.(*ssa.Store)
+					if !ok {
+						return
+					}
+					ia, ok := s2.Addr.(*ssa.IndexAddr)
+					if !ok {
+						return
+					}
+					// an element of the (new) counts: the slice loaded from the field after the store, or the make itself
+					base := resolveSpill(ia.X)
+					if base != ssa.Value(ms) && !isFieldLoad(base, ob, "counts") {
+						return
+					}
+					if !reachable(fn, in, x) {
+						return
+					}
+					if dependsOn(s2.Val, func(v ssa.Value) bool {
+						// a value read out of the old counts: a range / index over the field loaded before the re-allocation
+						switch t := v.(type) {
+						case *ssa.Index:
+							return isFieldLoad(t.X, ob, "counts")
+						case *ssa.IndexAddr:
+							return isFieldLoad(t.X, ob, "counts")
+						case *ssa.Next:
+							return true
+						}
+						return false
+					}) {
+						carried = true
+					}
+				})
+				if carried {
+					r.ok("BRK-ADJUST", key+" carry", w.PosOf(in), "the calls counted by the old window are carried into the new one")
+				} else {
+					r.violation("BRK-ADJUST", key+" carry", w.PosOf(in), "a window of another shape starts empty: an Adjust that changes the interval forgets the calls that were counted, and `limit` more are admitted at once")
+				}
 			} else {
 				r.violation("BRK-ADJUST", key, w.PosOf(in), "Adjust re-allocates the window unconditionally: the calls already counted are forgotten, and `limit` more are admitted at once")
 			}
